@@ -10,7 +10,28 @@ import FeatModel.Lemmas.C13Parti
 import FeatModel.Lemmas.C13Solve
 import FeatModel.Lemmas.C13Float
 import FeatModel.Lemmas.C13FloatBound
-/-! # C13 — distributed vector synchronisation (Gate / SynchVectorTicket / Global::Matrix) -/
+/-! # C13 — distributed vector synchronisation (Gate / SynchVectorTicket / Global::Matrix)
+
+## What is modelled as unbounded, and what ties it to the C++
+
+Every theorem below is stated for all sizes.  The models (`Model/Dist.lean`) use `Nat` and exact field elements where
+the C++ uses bounded machine types:
+
+* `Index` (`std::uint64_t`): local / global DOF numbers, mirror indices, buffer sizes and offsets
+  (`num_indices * block_size`, the offsets `Σ buffer_size_i` of `TupleMirror` / `PowerMirror`, `i * _buffer_size` of the muxer);
+* `int`: ranks and neighbour lists (`std::vector<int> _ranks`, `Muxer::_parent_rank`), the element COUNTS of every MPI
+  call (`int(count)` in kernel/util/dist.cpp: isend / irecv / gather / scatter / bcast / allreduce), the ownership mask of
+  `Gate::get_num_global_dofs` (`std::vector<int>`), `find_patch_part(int(i))` in control/asm/muxer_asm.hpp;
+* `SparseVector` storage behind `UnitFilter`: allocated in steps of 1000 slots (kernel/lafem/sparse_vector.hpp);
+* `double` / `float`: exact rationals `Q` in the in-process correspondence, an abstract rounding operator in the
+  float-clause theorems (`C13.sync0_float_bound`).
+
+Narrowing, allocation steps and group-size effects are therefore invisible to the theorems; they are tied to the code
+by the correspondence sub-streams `boundary-sizes` (in-process: mirror lengths, patch / neighbour / child counts and
+filter sizes 127..129, 255..257, 1000/1001, thorough 32767..65537, muxer groups crossing powers of two, interesting
+entries at the high end) and `mpisyn` (real MPI: single messages of more than 2^15 / 2^16 entries for scalar, blocked and
+tuple gates, neighbour counts 8/16/32/129) of `checks/props/c13.py`, with the same model comparison and independent oracle
+as the other streams. -/
 open FeatModel.Dist FeatModel.C13L
 
 /-- a scatter keeps the vector length -/
